@@ -10,7 +10,18 @@ GROUPS = [
     G("date_ymd", "harness/C12/date.c", "h_date", SRC, defs=["DATE1_ONLY"], level="P", search=500000, timeout=600, backend="portfolio",
       extra=["--no-standard-checks"], fn=["tmDateIsValid"], note="all size_t (y, m, d): 64-bit remainders by 4/100/400, decided by SMT"),
 ]
+NUM = ["src/math/pri.c", "src/math/pp/pp_etc.c", "src/math/pp/pp_mod.c", "src/math/pp/pp_mul.c", "src/math/pp/pp_red.c", "src/math/pp/pp_gcd.c",
+       "src/math/zz/zz_pow.c", "src/math/zz/zz_mod.c", "src/math/zz/zz_mul.c", "src/math/zz/zz_add.c", "src/math/zz/zz_etc.c", "src/math/ww.c", "src/core/mem.c"]
+GROUPS += [
+    G("numbers.primes_window", "harness/C12/numbers.c", "h_primes_window", NUM, level="X", backend="native", search=1, ndebug=True, timeout=1800,
+      fn=["priIsPrimeW", "priIsPrime", "priRMTest", "priNextPrimeW"],
+      note="level X: every a < 2^18, the windows 2^32 +- 3000 and the top 3000 64-bit values, Carmichael numbers and strong pseudoprimes, against a deterministic Miller-Rabin oracle; not a contract"),
+    G("numbers.primes_random.search", "harness/C12/numbers.c", "h_primes_random", NUM, level="N", backend="native", search=300000,
+      fn=["priIsPrimeW", "priIsPrime", "priRMTest", "priNextPrimeW"], note="generated 64-bit values against the oracle; NOT proof"),
+    G("numbers.irred_window", "harness/C12/numbers.c", "h_irred_window", NUM, level="X", backend="native", search=1, ndebug=True, timeout=1800,
+      fn=["ppIsIrred"], note="level X: every binary polynomial of degree 1..13 against trial division; not a contract"),
+]
 TRUSTED = []
 ASSUMPTIONS = []
 NOT_COVERED = ["bignParamsVal, bignPubkeyVal, bignKeypairVal and the g12s/stb99/dstu/pfok/bels validators (guard-structure contracts not built)",
-               "priIsPrime, priRMTest, priNextPrime, ppIsIrred, ecpIsValid, ecpIsSafeGroup: correctness of the verdict is number theory"]
+               "priIsPrime / priRMTest / priNextPrime beyond one word and ppIsIrred beyond degree 13; ecpIsValid, ecpIsSafeGroup: correctness of the verdict is number theory"]
